@@ -80,6 +80,10 @@ def facts_dir(cfg="Q", verbose=True):
         d = os.path.join(CACHE, "facts", cfg + "-" + key)
         marker = os.path.join(d, "COMPLETE")
         if os.path.exists(marker):
+            try:
+                os.utime(d)          # most recently *used* entries survive the purge below
+            except OSError:
+                pass
             return d
         # purge older extractions of this configuration
         # (entries are keyed by a hash of the sources, so an older one is still exact for the tree it was made from;
